@@ -27,6 +27,7 @@ ASSUMPTIONS = [
     "Python aliasing (which expressions create new objects) is represented by hand in the Lean model (Props.C14); the interleaving-vs-isolated comparison is what exercises it on the real code",
 ]
 TRUSTED = []
+NOT_THEOREMS = ['which Python expressions create new objects is represented by hand in Cfi/World.lean; the model is compared with the code on the registers of one class in every interleaved program, all other objects by the interleaved-vs-isolated comparison']
 EXHAUSTIVE = {"quick": False, "thorough": False}
 
 
